@@ -832,6 +832,7 @@ class CxxParser:
             while True:
                 if tok.type == "(":
                     rawtoks.extend(self._consume_balanced_tokens(tok))
+                    tok = self.lex.token()
                 else:
                     tok = self._parse_requires_segment(tok, rawtoks)
 
